@@ -92,3 +92,42 @@ class SessionLink(ft.Link):
         else:
             self.clock.t += 1
         return r
+
+
+class ReadLink:
+    """Device side of Cloader.read_flash: every read request [tid, 0x1C, page, offset] consumes one fate:
+    'lost' (no reply), ['wrong', [hdr, data]] (that packet arrives instead), 'good' (25 bytes of flash from
+    page*ps+offset, fewer at the end of the flash).  Script exhausted: good."""
+
+    def __init__(self, target, fates, CRTPPacket):
+        self.t, self.fates, self.P = target, list(fates), CRTPPacket
+        self.q, self.sent = [], []
+
+    def device_read(self, page, off):
+        a = page * self.t.ps + off
+        return [0xFF, [self.t.tid, 0x1C] + list(struct.pack('<HH', page, off)) + list(self.t.flash[a:a + 25])]
+
+    def send_packet(self, pk):
+        d = bytes(pk.data)
+        if len(self.sent) > 5000:
+            raise ft.HarnessAbort('read request repeated without bound')
+        self.sent.append([pk.header] + list(d))
+        if pk.header == 0xFF and len(d) == 6 and d[1] == 0x1C:
+            f = self.fates.pop(0) if self.fates else 'good'
+            if f == 'lost':
+                return
+            if f == 'good':
+                if d[0] == self.t.tid:
+                    page, off = struct.unpack('<HH', d[2:6])
+                    self.q.append(self.device_read(page, off))
+                return
+            self.q.append([f[1][0], list(f[1][1])])
+
+    def receive_packet(self, wait=0):
+        if not self.q:
+            return None
+        h, d = self.q.pop(0)
+        return self.P(h, bytearray(d))
+
+    def close(self):
+        pass
